@@ -1,9 +1,289 @@
 /-
 C01 — A publish reaches exactly the clients whose current subscriptions match it.
-(theorems under construction; see DESIGN.md section 8)
+
+Property theorems only (helper lemmas: `Proofs/BrokerFanout*.lean`).  Model:
+`Model/Broker.lean` (`onPublish`, `fanout`, `deliverConn`) over the topic store
+`Model/Topics.lean` and its finished theorems (`Properties/C06.lean`);
+specification: `Spec/Match.lean` (section 4.7).
 -/
-import Mqtt.Model.Broker
-import Mqtt.Spec.Broker
+import Mqtt.Proofs.BrokerFanoutHistory
+
+set_option linter.unusedSimpArgs false
 
 namespace Mqtt.Properties.C01
+open Mqtt.Iface.Broker Mqtt.Model.Broker Mqtt.Proofs.Broker
+open Mqtt.Proofs.Topics (good abs WF)
+open Mqtt.Spec.Match (split validName matchLevels topicMatches)
+
+/-- example state: clients "a" (connection 1) and "b" (connection 2), an
+in-process subscriber 1000 on "a/#" (QoS 1); connection 1 holds "a/+" (QoS 0)
+and "a/b" (QoS 2), connection 2 holds "#" (QoS 1). -/
+def exConnect (c : Nat) (cid : Bytes) : Ev :=
+  .first c (.connect { protoName := [77, 81, 84, 84], version := 4, clean := true, will := none, clientId := cid }) true
+
+def exState : B :=
+  (run {} [exConnect 1 [97], exConnect 2 [98], .srvSub 1000 [97, 47, 35] 1,
+           .packet 1 (.subscribe 1 [([97, 47, 43], 0), ([97, 47, 98], 2)]),
+           .packet 2 (.subscribe 1 [([35], 1)])]).1
+
+/-! ### (d) the fan-out loop over a subscriber list -/
+
+/-- The loop of `onPublish` over the subscriber list `subs`, for a message
+object `m` that carries a packet identifier or needs none (true of every
+decoded inbound PUBLISH) and a non-empty topic, when every connection in the
+list is alive: it emits, in list order, exactly one output per entry
+`(s, eqos)` - to a connection (`s < cbBase`) the PUBLISH with the message's
+topic, payload, DUP bit, QoS `eqos`, the publisher's packet identifier (none at
+QoS 0) and RETAIN = 0; to an in-process callback the message object with QoS
+`eqos` (RETAIN as received, finding E10).  The broker state is unchanged
+(in particular the identifier counter); of the message object only the QoS
+field and `dirty` are different afterwards: RETAIN, cleared for every
+connection, is restored after each delivery. -/
+theorem C01_fanout_char (b : B) (m : Msg) (subs : List (Nat × Nat))
+    (ht : m.p.topic ≠ []) (hid : m.p.pktid ≠ 0 ∨ ∀ sq ∈ subs, sq.2 = 0)
+    (hal : ∀ sq ∈ subs, sq.1 < cbBase → b.alive sq.1 = true) :
+    (fanout b m subs).2.2 = subs.map (fun sq =>
+      if sq.1 < cbBase then
+        Out.send sq.1 (.publish { dup := m.p.dup, qos := sq.2, retain := false, topic := m.p.topic,
+                                  pktid := if sq.2 = 0 then 0 else m.p.pktid, payload := m.p.payload })
+      else Out.call sq.1 { m.p with qos := sq.2 }) ∧
+    (fanout b m subs).1 = b ∧
+    (fanout b m subs).2.1.p = { m.p with qos := subs.foldl (fun _ sq => sq.2) m.p.qos } := by
+  obtain ⟨h1, h2, h3⟩ := fanout_char subs b m ht hid hal
+  exact ⟨h3, h1, h2⟩
+
+/-- the hypothesis on identifiers, for effective QoS values that never exceed the message's -/
+theorem C01_fanout_ids (p : Pub) (subs : List (Nat × Nat)) (hp : p.pktid ≠ 0 ∨ p.qos = 0)
+    (hle : ∀ sq ∈ subs, sq.2 ≤ p.qos) : p.pktid ≠ 0 ∨ ∀ sq ∈ subs, sq.2 = 0 := by
+  rcases hp with h | h
+  · exact Or.inl h
+  · exact Or.inr (fun sq hsq => by have := hle sq hsq; omega)
+
+/-- non-vacuity: a QoS 2 retained message through a list that downgrades to 0,
+goes back to 2, then to 1 (the object becomes dirty on the way) -/
+example :
+    let m : Msg := ⟨{ qos := 2, retain := true, topic := [97, 47, 98], pktid := 5, payload := [1, 2] }, false⟩
+    let subs := [(1, 0), (1, 2), (2, 1), (1000, 1)]
+    (∀ sq ∈ subs, sq.1 < cbBase → exState.alive sq.1 = true) ∧
+    (fanout exState m subs).2.2 =
+      [.send 1 (.publish { qos := 0, retain := false, topic := [97, 47, 98], pktid := 0, payload := [1, 2] }),
+       .send 1 (.publish { qos := 2, retain := false, topic := [97, 47, 98], pktid := 5, payload := [1, 2] }),
+       .send 2 (.publish { qos := 1, retain := false, topic := [97, 47, 98], pktid := 5, payload := [1, 2] }),
+       .call 1000 { qos := 1, retain := true, topic := [97, 47, 98], pktid := 5, payload := [1, 2] }] ∧
+    (fanout exState m subs).2.1 =
+      ⟨{ qos := 1, retain := true, topic := [97, 47, 98], pktid := 5, payload := [1, 2] }, true⟩ := by
+  decide
+
+/-! ### (e) a publish reaches exactly the matching subscriptions -/
+
+/- `delivery p s g` (Proofs/BrokerFanoutGen.lean) is what subscriber `s`, holding a
+matching subscription granted at QoS `g`, is handed for the accepted PUBLISH
+`p`: same topic, same payload, QoS `min(p.qos, g)`; a connection (`s < cbBase`)
+gets `.send s (.publish ..)` with RETAIN = 0 and the publisher's identifier
+(none at QoS 0), an in-process callback `.call s ..` with the message as
+received.  `target o` is the subscriber an output is addressed to. -/
+
+/-- For every state satisfying the invariant whose subscribed connections are
+alive, and every decoded PUBLISH `p` (QoS <= 2, identifier present unless QoS 0)
+on a valid topic name without empty and '$'-led levels (findings B3/B4 are
+outside): `onPublish` succeeds and its outputs are - up to the order in which
+Go iterates its maps - exactly one `delivery` per entry (path, subscriber,
+granted QoS) of the subscription trie whose path matches the name under MQTT
+3.1.1 section 4.7 (`Spec.Match.matchLevels`): at least once and at most once
+per matching subscription, nothing to anybody else. -/
+theorem C01_publish_reaches_matching_partial (b : B) (p : Pub) (hinv : Inv b)
+    (hg : good p.topic = true) (hn : validName p.topic = true) (hq : p.qos ≤ 2)
+    (hid : p.pktid ≠ 0 ∨ p.qos = 0)
+    (hal : ∀ e ∈ abs b.topics.sroot, e.2.1 < cbBase → b.alive e.2.1 = true) :
+    (onPublish b ⟨p, false⟩).2.2.2 = true ∧
+    (onPublish b ⟨p, false⟩).2.2.1.Perm
+      (((abs b.topics.sroot).filter (fun e => matchLevels e.1 (split p.topic))).map
+        (fun e => delivery p e.2.1 e.2.2)) := by
+  obtain ⟨h1, _, h3⟩ := onPublish_char b p hinv hg hn hq hid hal
+  exact ⟨h1, h3⟩
+
+/-- The same without assuming that the subscribed connections are alive (after
+overlapping client identifiers, finding E4, the trie can keep entries of dead
+connections): a dead connection gets nothing; everybody else gets exactly the
+deliveries above - except that, once the loop has passed a dead connection, the
+in-process callbacks after it see RETAIN = 0 instead of the received flag
+(`dropCallRetain` forgets the flag callbacks see; what connections are sent is
+compared exactly). -/
+theorem C01_publish_reaches_reachable_partial (b : B) (p : Pub) (hinv : Inv b)
+    (hg : good p.topic = true) (hn : validName p.topic = true) (hq : p.qos ≤ 2)
+    (hid : p.pktid ≠ 0 ∨ p.qos = 0) :
+    (onPublish b ⟨p, false⟩).2.2.2 = true ∧
+    ((onPublish b ⟨p, false⟩).2.2.1.map dropCallRetain).Perm
+      (((abs b.topics.sroot).filter (fun e => matchLevels e.1 (split p.topic) && reachable b e.2.1)).map
+        (fun e => dropCallRetain (delivery p e.2.1 e.2.2))) :=
+  onPublish_char_gen b p hinv hg hn hq hid
+
+/-- In terms of the subscriptions held (`HeldInv`: the trie holds exactly the
+entries of the specification's `held` list, as `C07_held_refines_partial`
+maintains over SUBSCRIBE/UNSUBSCRIBE steps): the outputs are one `delivery` per
+held subscription whose filter matches the topic name. -/
+theorem C01_publish_held_partial (b : B) (p : Pub) (held : List Mqtt.Spec.Broker.Held) (hinv : Inv b)
+    (hh : HeldInv b.topics.sroot held)
+    (hg : good p.topic = true) (hn : validName p.topic = true) (hq : p.qos ≤ 2)
+    (hid : p.pktid ≠ 0 ∨ p.qos = 0)
+    (hal : ∀ h ∈ held, h.owner < cbBase → b.alive h.owner = true) :
+    (onPublish b ⟨p, false⟩).2.2.1.Perm
+      ((held.filter (fun h => topicMatches h.filter p.topic)).map (fun h => delivery p h.owner h.qos)) := by
+  have hal' : ∀ e ∈ abs b.topics.sroot, e.2.1 < cbBase → b.alive e.2.1 = true := by
+    intro e he hlt
+    have := hh.perm.mem_iff.mp he
+    obtain ⟨h, hm, rfl⟩ := List.mem_map.mp this
+    exact hal h hm hlt
+  refine (C01_publish_reaches_matching_partial b p hinv hg hn hq hid hal').2.trans ?_
+  refine ((hh.perm.filter _).map _).trans ?_
+  rw [List.filter_map, List.map_map]
+  exact List.Perm.refl _
+
+/-- No other client receives it: every output of the step is addressed to the
+owner of a held subscription whose filter matches the topic name. -/
+theorem C01_nobody_else_partial (b : B) (p : Pub) (held : List Mqtt.Spec.Broker.Held) (hinv : Inv b)
+    (hh : HeldInv b.topics.sroot held)
+    (hg : good p.topic = true) (hn : validName p.topic = true) (hq : p.qos ≤ 2)
+    (hid : p.pktid ≠ 0 ∨ p.qos = 0)
+    (hal : ∀ h ∈ held, h.owner < cbBase → b.alive h.owner = true) :
+    ∀ o ∈ (onPublish b ⟨p, false⟩).2.2.1,
+      ∃ h ∈ held, topicMatches h.filter p.topic = true ∧ target o = some h.owner := by
+  intro o ho
+  have := (C01_publish_held_partial b p held hinv hh hg hn hq hid hal).mem_iff.mp ho
+  obtain ⟨h, hm, rfl⟩ := List.mem_map.mp this
+  obtain ⟨hm1, hm2⟩ := List.mem_filter.mp hm
+  exact ⟨h, hm1, hm2, target_delivery p h.owner h.qos⟩
+
+/-! ### after any history of subscribe / unsubscribe / publish steps -/
+
+/-- Histories.  Start from any state satisfying the invariant whose trie holds
+the subscriptions `held` (for instance the initial state and `[]`), and run ANY
+sequence of events that neither begin nor end a connection, with good filters
+in every SUBSCRIBE / UNSUBSCRIBE / in-process Subscribe / Unsubscribe
+(`heldOk`).  `heldRun` is the specification's bookkeeping over that sequence
+(`Spec.Broker.step1`'s `held` component: granted filters added in request
+order, listed filters removed).  Then a decoded PUBLISH on a good valid name is
+handed to exactly the reachable owners of the subscriptions held at that
+moment whose filter matches, once per subscription, at QoS min(publish QoS,
+granted QoS), same topic, identical payload - and to nobody else. -/
+theorem C01_after_history_partial (b : B) (held : List Mqtt.Spec.Broker.Held) (es : List Ev)
+    (hinv : Inv b) (hh : HeldInv b.topics.sroot held) (hok : ∀ e ∈ es, heldOk e = true)
+    (p : Pub) (hg : good p.topic = true) (hn : validName p.topic = true) (hq : p.qos ≤ 2)
+    (hid : p.pktid ≠ 0 ∨ p.qos = 0) :
+    ((onPublish (run b es).1 ⟨p, false⟩).2.2.1.map dropCallRetain).Perm
+      (((heldRun b held es).filter (fun h => topicMatches h.filter p.topic && reachable (run b es).1 h.owner)).map
+        (fun h => dropCallRetain (delivery p h.owner h.qos))) := by
+  obtain ⟨hinv', hh'⟩ := held_run es b held hinv hh hok
+  refine (C01_publish_reaches_reachable_partial _ p hinv' hg hn hq hid).2.trans ?_
+  refine ((hh'.perm.filter _).map _).trans ?_
+  rw [List.filter_map, List.map_map]
+  exact List.Perm.refl _
+
+/-- non-vacuity: from the initial state - two connections (registered first),
+then subscriptions, an unsubscription, a rejected filter, an in-process
+subscriber, traffic -/
+example :
+    let b0 := (run {} [exConnect 1 [97], exConnect 2 [98]]).1
+    let es : List Ev := [.packet 1 (.subscribe 1 [([97, 47, 43], 1), ([97, 47, 35, 47, 120], 1)]),
+                         .packet 2 (.subscribe 1 [([35], 2)]), .srvSub 1000 [97, 47, 98] 0,
+                         .packet 2 (.publish { qos := 0, topic := [120], payload := [] }),
+                         .packet 1 (.subscribe 2 [([97, 47, 98], 2)]),
+                         .packet 1 (.unsubscribe 3 [[97, 47, 43]]), .packet 1 .pingreq]
+    (∀ e ∈ es, heldOk e = true) ∧
+    heldRun b0 [] es = [⟨2, [35], 2⟩, ⟨1000, [97, 47, 98], 0⟩, ⟨1, [97, 47, 98], 2⟩] ∧
+    (onPublish (run b0 es).1 ⟨{ qos := 1, topic := [97, 47, 98], pktid := 8, payload := [5] }, false⟩).2.2.1 =
+      [.call 1000 { qos := 0, topic := [97, 47, 98], pktid := 8, payload := [5] },
+       .send 1 (.publish { qos := 1, topic := [97, 47, 98], pktid := 8, payload := [5] }),
+       .send 2 (.publish { qos := 1, topic := [97, 47, 98], pktid := 8, payload := [5] })] := by
+  decide
+
+/-! ### ... until the end of the connection -/
+
+/-- The end of a connection (`stop`: peer close, keep-alive expiry, protocol
+error, DISCONNECT).  The entries of `c` under the paths of its session's topics
+leave the trie (other subscribers' entries stay); and whatever the trie still
+holds, from then on no PUBLISH is forwarded to `c`: in the state after `stop`,
+`onPublish` addresses no output to it. -/
+theorem C01_connection_end_partial (b : B) (hinv : Inv b) (c : Nat) (hc : c < cbBase) :
+    (∀ cn s, b.getConn c = some cn → cn.alive = true → b.getSess cn.sess = some s →
+      (abs (stop b c).1.topics.sroot).Perm (entriesAfterUnsub c (s.topics.map (·.1)) (abs b.topics.sroot)) ∧
+      ((abs (stop b c).1.topics.sroot).filter (fun e => e.2.1 != c)).Perm
+        ((abs b.topics.sroot).filter (fun e => e.2.1 != c))) ∧
+    (∀ p : Pub, good p.topic = true → validName p.topic = true → p.qos ≤ 2 → (p.pktid ≠ 0 ∨ p.qos = 0) →
+      ∀ o ∈ (onPublish (stop b c).1 ⟨p, false⟩).2.2.1, target o ≠ some c) := by
+  constructor
+  · intro cn s h1 h2 h3
+    have hp := stop_sroot b hinv c cn s h1 h2 h3
+    refine ⟨hp, ?_⟩
+    have := hp.filter (fun e => e.2.1 != c)
+    rw [entriesAfterUnsub_others] at this
+    exact this
+  · intro p hg hn hq hid o ho htc
+    obtain ⟨_, hperm⟩ := onPublish_char_gen _ p (Inv_stop b c hinv) hg hn hq hid
+    have hin : dropCallRetain o ∈ ((onPublish (stop b c).1 ⟨p, false⟩).2.2.1.map dropCallRetain) :=
+      List.mem_map.mpr ⟨o, ho, rfl⟩
+    rw [hperm.mem_iff] at hin
+    obtain ⟨e, he, heq⟩ := List.mem_map.mp hin
+    obtain ⟨_, he2⟩ := List.mem_filter.mp he
+    simp only [Bool.and_eq_true] at he2
+    have h1 : target (dropCallRetain (fwd p (e.2.1, min p.qos e.2.2))) = some e.2.1 := by
+      rw [target_dropCallRetain, ← delivery_eq, target_delivery]
+    rw [heq, target_dropCallRetain, htc] at h1
+    have hce : e.2.1 = c := (Option.some.inj h1).symm
+    have hr := he2.2
+    rw [hce] at hr
+    have hnc : ¬ cbBase ≤ c := by omega
+    simp [reachable, stop_dead, hnc] at hr
+
+/-- non-vacuity: connection 1 of `exState` closes; a PUBLISH on "a/b" then
+reaches callback 1000 and connection 2 only, and the trie has lost the entries
+of connection 1 -/
+example :
+    let b1 := (step exState (.close 1)).1
+    abs b1.topics.sroot = [([[97], [35]], 1000, 1), ([[35]], 2, 1)] ∧
+    (onPublish b1 ⟨{ qos := 1, topic := [97, 47, 98], pktid := 5, payload := [1] }, false⟩).2.2.1 =
+      [.call 1000 { qos := 1, topic := [97, 47, 98], pktid := 5, payload := [1] },
+       .send 2 (.publish { qos := 1, topic := [97, 47, 98], pktid := 5, payload := [1] })] := by
+  decide
+
+/-- the full statement: all valid topic names -/
+def C01_publish_held_full : Prop :=
+  ∀ (b : B) (p : Pub) (held : List Mqtt.Spec.Broker.Held), Inv b → HeldInv b.topics.sroot held →
+    validName p.topic = true → p.qos ≤ 2 → (p.pktid ≠ 0 ∨ p.qos = 0) →
+    (∀ h ∈ held, h.owner < cbBase → b.alive h.owner = true) →
+    (onPublish b ⟨p, false⟩).2.2.1.Perm
+      ((held.filter (fun h => topicMatches h.filter p.topic)).map (fun h => delivery p h.owner h.qos))
+
+/-- False of the code as it is (finding B3): a PUBLISH on "a/" (two levels,
+the second empty) is delivered to the subscription "a". -/
+theorem C01_publish_held_full_counterexample : ¬ C01_publish_held_full := by
+  intro h
+  let b : B := (run {} [exConnect 1 [97], .packet 1 (.subscribe 1 [([97], 1)])]).1
+  have ha : abs b.topics.sroot = [([[97]], 1, 1)] := by decide
+  have hh : HeldInv b.topics.sroot [⟨1, [97], 1⟩] :=
+    ⟨by rw [ha]; exact List.Perm.refl _, by decide⟩
+  have := h b { qos := 0, topic := [97, 47], payload := [1] } [⟨1, [97], 1⟩] (Inv_run _ _ Inv_init) hh
+    (by decide) (by decide) (by decide) (by decide)
+  exact absurd this.length_eq (by decide)
+
+/-- non-vacuity on `exState`: a QoS 2 PUBLISH "a/b" reaches callback 1000 via
+"a/#" at QoS 1, connection 1 twice (via "a/+" at QoS 0 and via "a/b" at QoS 2),
+connection 2 via "#" at QoS 1; a PUBLISH on "c" reaches connection 2 only. -/
+example :
+    Inv exState ∧ (∀ e ∈ abs exState.topics.sroot, e.2.1 < cbBase → exState.alive e.2.1 = true) ∧
+    abs exState.topics.sroot =
+      [([[97], [35]], 1000, 1), ([[97], [43]], 1, 0), ([[97], [98]], 1, 2), ([[35]], 2, 1)] ∧
+    (onPublish exState ⟨{ qos := 2, topic := [97, 47, 98], pktid := 5, payload := [1, 2] }, false⟩).2.2.1 =
+      [.call 1000 { qos := 1, topic := [97, 47, 98], pktid := 5, payload := [1, 2] },
+       .send 1 (.publish { qos := 0, topic := [97, 47, 98], pktid := 0, payload := [1, 2] }),
+       .send 1 (.publish { qos := 2, topic := [97, 47, 98], pktid := 5, payload := [1, 2] }),
+       .send 2 (.publish { qos := 1, topic := [97, 47, 98], pktid := 5, payload := [1, 2] })] ∧
+    (onPublish exState ⟨{ qos := 0, topic := [99], payload := [] }, false⟩).2.2.1 =
+      [.send 2 (.publish { qos := 0, topic := [99], payload := [] })] := by
+  refine ⟨Inv_run _ _ Inv_init, ?_, by decide, by decide, by decide⟩
+  have ha : abs exState.topics.sroot =
+      [([[97], [35]], 1000, 1), ([[97], [43]], 1, 0), ([[97], [98]], 1, 2), ([[35]], 2, 1)] := by decide
+  rw [ha]
+  decide
+
 end Mqtt.Properties.C01
